@@ -77,6 +77,11 @@ type Input struct {
 	// the environment of the case claims them); every message of such a task (status labels, device
 	// event labels) still names environment A, as the real executor stamps them at launch
 	Claimed bool `json:"claimed,omitempty"`
+	// Overlap: concurrent roster traffic of ANOTHER environment: environment A (same tasks) is torn
+	// down, its first Mesos KILL call is held in the simulated master (and then answered: "kill-ok",
+	// or refused: "kill-fails") while the environment of the case is created and deployed from start
+	// to end; then the call returns.  Every task of the live environment must still be in the roster.
+	Overlap string `json:"overlap,omitempty"`
 	Ops    []Op         `json:"ops"`
 }
 
@@ -86,6 +91,7 @@ type StepObs struct {
 	Reported []int    `json:"reported"`
 	Cmded    []int    `json:"cmded"`
 	REnd     int      `json:"rend"`
+	Rostered bool     `json:"rostered"` // every task of the environment is in the core's roster (probe)
 	RunEvs   []int    `json:"runevs"`
 	Tasks    [][2]int `json:"tasks"`
 	Victims  []int    `json:"victims"` // computed by the harness: tasks the fault of this step hits
@@ -666,6 +672,21 @@ func containsInt(xs []int, x int) bool {
 	return false
 }
 
+// allRostered: the precondition of every failure path - each task of the live environment is an
+// entry of the task manager's roster
+func (c *caseRun) allRostered() bool {
+	in := map[string]bool{}
+	for _, t := range c.w.Sim.Taskman.VerifRoster() {
+		in[t.TaskId] = true
+	}
+	for i := range c.in.Tasks {
+		if id := c.taskId(i); id == "" || !in[id] {
+			return false
+		}
+	}
+	return true
+}
+
 func (c *caseRun) observe(so *StepObs, want map[int]int) {
 	c.settleObs(want, so.Hang)
 	so.State = c0203.EnvStateCode[c.env.State()]
@@ -683,6 +704,7 @@ func (c *caseRun) observe(so *StepObs, want map[int]int) {
 	}
 	c.runAt = len(evs)
 	so.Tasks = c.env.RoleView()
+	so.Rostered = c.allRostered()
 	c.prevView, c.prevState = so.Tasks, so.State
 }
 
@@ -804,7 +826,64 @@ func runCase(w *c0203.World, idx int, in Input) (obs []StepObs, wedged bool) {
 		})
 		viper.Set("reuseUnlockedTasks", true)
 	}
+	var releaseKill func()
+	if in.Overlap != "" && !in.Claimed {
+		envO, crO := w.Create(name+"o", in.Tasks, nil, nil, nil, "1500ms", 4*time.Second)
+		if crO.Err != nil || crO.Hang || envO.E == nil {
+			return nil, n > 0
+		}
+		held := map[string]bool{}
+		for _, tid := range envO.TaskIds {
+			held[tid] = true
+		}
+		reached, release, destroyed := make(chan struct{}), make(chan struct{}), make(chan struct{})
+		var once sync.Once
+		fails := in.Overlap == "kill-fails"
+		w.Sim.Beh.KillError = func(tid string) error {
+			if !held[tid] {
+				return nil
+			}
+			once.Do(func() { close(reached) })
+			select {
+			case <-release:
+			case <-time.After(20 * time.Second):
+			}
+			if fails {
+				return fmt.Errorf("simulated: the master refuses the KILL")
+			}
+			return nil
+		}
+		envO.Finish(false)
+		go func() {
+			defer close(destroyed)
+			_, _ = w.Sim.Rpc.DestroyEnvironment(context.Background(), &pb.DestroyEnvironmentRequest{Id: envO.Id.String(), Force: true})
+		}()
+		select {
+		case <-reached:
+		case <-time.After(5 * time.Second):
+		}
+		releaseKill = func() {
+			close(release)
+			select {
+			case <-destroyed:
+			case <-time.After(6 * time.Second):
+			}
+			w.Sim.Beh.KillError = nil
+			if fails {
+				// the refused tasks are back in the roster, unlocked and alive: killed now (only they: a
+				// Cleanup would also take the tasks of this environment that lost their agent / executor)
+				ids := []string{}
+				for tid := range held {
+					ids = append(ids, tid)
+				}
+				_, _, _ = w.Sim.Taskman.KillTasks(ids)
+			}
+		}
+	}
 	env, cr := w.Create(name, in.Tasks, nil, nil, calls, "1500ms", 4*time.Second)
+	if releaseKill != nil {
+		releaseKill()
+	}
 	viper.Set("reuseUnlockedTasks", false)
 	tap.arm(nil)
 	w.OnProbe(earlyId, nil)
@@ -1055,7 +1134,7 @@ func obsTerm(o StepObs) string {
 	for i, t := range o.Tasks {
 		ts[i] = fmt.Sprintf("(%d, %d)", t[0], t[1])
 	}
-	return fmt.Sprintf("(mkWO %d %s %s %s %d %s %s)", o.State, gen.Bool(o.Hang), nList(o.Reported), nList(o.Cmded), o.REnd, nList(o.RunEvs), gen.List(ts))
+	return fmt.Sprintf("(mkWO %d %s %s %s %d %s %s %s)", o.State, gen.Bool(o.Hang), nList(o.Reported), nList(o.Cmded), o.REnd, nList(o.RunEvs), gen.List(ts), gen.Bool(o.Rostered))
 }
 
 // the faults of the term carry the victims the harness computed while running the case (obs[k+1]
@@ -1237,6 +1316,9 @@ func genCase(r *gen.Rand) (Input, string) {
 	if r.Chance(1, 5) {
 		kind += "-claimed"
 		in.Claimed = true
+	} else if r.Chance(1, 6) {
+		kind += "-overlap"
+		in.Overlap = []string{"kill-ok", "kill-ok", "kill-fails"}[r.Intn(3)]
 	}
 	g := &genState{r: r, in: &in, alive: make([]bool, n), state: "CONFIGURED"}
 	for i := range g.alive {
@@ -1425,6 +1507,14 @@ func corpus() []job {
 	add("corpus-refresh-claimed-then-executor", Input{Tasks: two, Claimed: true, Ops: []Op{{Kind: "cmd", Ev: "START", Oc: a2}, {Kind: "refresh", How: "reconnect", Omit: "executor"}, {Kind: "fault", F: &Fault{Kind: "executor", V: 0}, Oc: a2}}})
 	add("corpus-refresh-then-noncritical-and-stop", Input{Tasks: two, Ops: []Op{{Kind: "cmd", Ev: "START", Oc: a2}, {Kind: "refresh", How: "reconnect", Omit: "both"},
 		{Kind: "fault", F: &Fault{Kind: "failed", V: 1}, Oc: a2}, {Kind: "cmd", Ev: "STOP", Oc: a2}}})
+	// concurrent roster traffic of another environment: its teardown (a held KILL call) overlaps the whole
+	// deployment of the environment of the case; then every failure kind (seeded change C03-7: doKillTasks
+	// writes a stale roster snapshot back after its KILL calls and erases the tasks deployed meanwhile)
+	for _, k := range []string{"failed", "lost", "killed", "error", "executor", "agent", "internal"} {
+		add("corpus-overlap-then-"+k, Input{Tasks: two, Overlap: "kill-ok", Ops: []Op{{Kind: "cmd", Ev: "START", Oc: a2}, {Kind: "fault", F: &Fault{Kind: k, V: 0}, Oc: a2}}})
+	}
+	add("corpus-overlap-killfails-then-lost-configured", Input{Tasks: two, Overlap: "kill-fails", Ops: []Op{{Kind: "fault", F: &Fault{Kind: "lost", V: 0}, Oc: a2}}})
+	add("corpus-overlap-killfails-then-internal", Input{Tasks: two, Overlap: "kill-fails", Ops: []Op{{Kind: "cmd", Ev: "START", Oc: a2}, {Kind: "fault", F: &Fault{Kind: "internal", V: 0}, Oc: a2}}})
 	return js
 }
 
@@ -1641,6 +1731,9 @@ func main() {
 		if !ok {
 			lost++
 			obs = []StepObs{}
+		}
+		if j.In.Overlap != "" && !j.In.Claimed {
+			labels["world=overlapped-teardown,"+j.In.Overlap]++
 		}
 		if j.In.Claimed {
 			labels["world=claimed-tasks"]++
